@@ -3,6 +3,7 @@ pub mod bits;
 pub mod gen;
 pub mod per;
 pub mod print;
+pub mod proto;
 pub mod resolve;
 pub mod rng;
 pub mod schema;
